@@ -24,8 +24,8 @@ func tryReplay(e *Engine, o *Obl, model map[string]string, repo, dir string) (bo
 		return false, "replay: obligation is not attached to a function\n"
 	}
 	fn := vc.fn
-	if tmpl := replayTemplates[fnKey(fn)]; tmpl != nil {
-		return tmpl(e, o, model, repo, dir)
+	if ok, txt, handled := templateReplay(e, o, repo, dir); handled {
+		return ok, txt
 	}
 	sig := fn.Signature
 	if sig.Recv() != nil || fn.Parent() != nil || sig.TypeParams() != nil {
@@ -138,6 +138,20 @@ func TestGvcReplay(t *testing.T) {
 		}
 		tr.WriteString("replay: the real function did not panic on the model input\n")
 		return false, tr.String()
+	case "nowrap":
+		// an arithmetic overflow is a violation when it makes a postcondition of the contract false on the real code
+		if panicked || vc.act == nil || vc.act.con == nil {
+			return false, tr.String()
+		}
+		for _, c := range vc.act.con.Ensures {
+			ok, err := cevalBool(e, c.Expr, vals)
+			if err == nil && !ok {
+				tr.WriteString("replay: REPRODUCED (with the overflowing input the clause '" + c.Text + "' is false on the real function's result)\n")
+				return true, tr.String()
+			}
+		}
+		tr.WriteString("replay: all evaluable postconditions hold on the real function's result for this input\n")
+		return false, tr.String()
 	case "post":
 		if o.Clause == nil {
 			return false, tr.String()
@@ -161,7 +175,164 @@ func TestGvcReplay(t *testing.T) {
 	return false, tr.String()
 }
 
-var replayTemplates = map[string]func(e *Engine, o *Obl, model map[string]string, repo, dir string) (bool, string){}
+// templateReplay: /verif/replay/<pkg>.<Recv>.<Func>.tmpl holds a Go test with {{name}} placeholders and
+// "//@ get name = <spec expr>" lines; the expressions are evaluated in the function's entry state, their values are
+// requested from the solver for the counterexample, and the filled-in test runs on the real code.
+// The test prints GVC-PANIC on a panic and GVC-VIOLATION when its own check of the property fails.
+func templateReplay(e *Engine, o *Obl, repo, dir string) (bool, string, bool) {
+	vc := o.vc
+	key := shortName(fnKey(vc.fn))
+	b, err := os.ReadFile(filepath.Join(verifDir, "replay", key+".tmpl"))
+	if err != nil || vc.act == nil {
+		return false, "", false
+	}
+	var tr strings.Builder
+	type getv struct{ name, term, sort, fact string }
+	var gets []getv
+	var body []string
+	env := vc.act.specEnv(vc.act.entry)
+	env.old = vc.act.entry
+	for _, l := range strings.Split(string(b), "\n") {
+		t := strings.TrimSpace(l)
+		if strings.HasPrefix(t, "//@ get ") {
+			kv := strings.SplitN(t[8:], "=", 2)
+			if len(kv) != 2 {
+				continue
+			}
+			ex, err := parseSpecExpr(strings.TrimSpace(kv[1]))
+			if err != nil {
+				tr.WriteString("replay template: " + err.Error() + "\n")
+				continue
+			}
+			v, err := env.evalVal(ex)
+			if err != nil {
+				tr.WriteString("replay template: " + err.Error() + "\n")
+				continue
+			}
+			fact := "true"
+			if v.T != nil {
+				fact = e.g.rangeFact(v.T, v.S)
+			}
+			gets = append(gets, getv{strings.TrimSpace(kv[0]), v.S, v.Sort, fact})
+			continue
+		}
+		body = append(body, l)
+	}
+	var terms []string
+	for _, g := range gets {
+		terms = append(terms, g.term)
+	}
+	script := o.scriptWith(true, true, "(get-value ("+strings.Join(terms, " ")+"))\n")
+	if o.Result != "sat" {
+		script = stripQuantified(script)
+	}
+	var extra strings.Builder
+	for _, g := range gets {
+		if g.fact != "true" {
+			extra.WriteString("(assert " + g.fact + ")\n")
+		}
+	}
+	if k := strings.LastIndex(script, "(check-sat)"); k >= 0 {
+		script = script[:k] + extra.String() + script[k:]
+	}
+	f := filepath.Join(dir, sanitize(o.Name)+".getvalue.smt2")
+	os.WriteFile(f, []byte(script), 0o644)
+	res, out, _ := runSolver(solvers[0], f, 10)
+	if res != "sat" {
+		tr.WriteString("replay: could not obtain counterexample values (" + res + ")\n")
+		return false, tr.String(), true
+	}
+	vals := parseGetValue(out, len(gets))
+	src := strings.Join(body, "\n")
+	for i, g := range gets {
+		v := "0"
+		if i < len(vals) {
+			v = vals[i]
+		}
+		switch g.sort {
+		case sBool:
+		case sInt:
+		default:
+			v = fmt.Sprintf("%q", v)
+		}
+		fmt.Fprintf(&tr, "model: %s = %s\n", g.name, v)
+		src = strings.ReplaceAll(src, "{{"+g.name+"}}", v)
+	}
+	out2, err := runOverlayTest(repo, vc.fn.Pkg.Pkg.Path(), e.modPath, src, dir, "TestGvcReplay")
+	tr.WriteString("replay test:\n" + src + "\nreplay output:\n" + out2 + "\n")
+	if err != nil && !strings.Contains(out2, "GVC-") {
+		tr.WriteString("replay: test run failed: " + err.Error() + "\n")
+	}
+	if o.Kind == "nopanic" && strings.Contains(out2, "GVC-PANIC") {
+		tr.WriteString("replay: REPRODUCED (the real code panicked on the counterexample)\n")
+		return true, tr.String(), true
+	}
+	if strings.Contains(out2, "GVC-VIOLATION") {
+		tr.WriteString("replay: REPRODUCED (the template's check of the property failed on the real code)\n")
+		return true, tr.String(), true
+	}
+	tr.WriteString("replay: the counterexample did not reproduce on the real code\n")
+	return false, tr.String(), true
+}
+
+// parseGetValue parses "((t1 v1) (t2 v2) ...)" returning the values in order.
+func parseGetValue(out string, n int) []string {
+	i := strings.Index(out, "((")
+	if i < 0 {
+		return nil
+	}
+	s := out[i+1:]
+	var vals []string
+	depth := 0
+	start := -1
+	for j := 0; j < len(s) && len(vals) < n; j++ {
+		switch s[j] {
+		case '(':
+			if depth == 0 {
+				start = j
+			}
+			depth++
+		case ')':
+			depth--
+			if depth == 0 && start >= 0 {
+				pair := s[start+1 : j]
+				vals = append(vals, lastSexp(pair))
+				start = -1
+			}
+			if depth < 0 {
+				return vals
+			}
+		}
+	}
+	return vals
+}
+
+// lastSexp returns the last s-expression of "term value" and normalises negative integers.
+func lastSexp(pair string) string {
+	pair = strings.TrimSpace(pair)
+	var v string
+	if strings.HasSuffix(pair, ")") {
+		d := 0
+		for k := len(pair) - 1; k >= 0; k-- {
+			if pair[k] == ')' {
+				d++
+			} else if pair[k] == '(' {
+				d--
+				if d == 0 {
+					v = pair[k:]
+					break
+				}
+			}
+		}
+	} else {
+		k := strings.LastIndexAny(pair, " \t\n")
+		v = pair[k+1:]
+	}
+	if strings.HasPrefix(v, "(- ") {
+		v = "-" + strings.TrimSuffix(v[3:], ")")
+	}
+	return v
+}
 
 // runOverlayTest injects src as an in-package test file via -overlay and runs it.
 func runOverlayTest(repo, pkgPath, modPath, src, dir, run string) (string, error) {
